@@ -1,5 +1,9 @@
-use super::{full_path_prefix, BoundQuery, Query, QueryValidationError, Selection, SelectionId};
+use super::{
+    full_path_prefix, BoundQuery, Query, QueryValidationError, ResolvedFragmentId, Selection,
+    SelectionId,
+};
 use crate::schema::TypeId;
+use std::collections::BTreeSet;
 
 pub(super) fn validate_typename_presence(
     query: &BoundQuery<'_>,
@@ -51,15 +55,39 @@ fn selection_set_contains_type_name(
     selection_set: &[SelectionId],
     query: &Query,
 ) -> bool {
+    selection_set_contains_type_name_inner(
+        parent_type_id,
+        selection_set,
+        query,
+        &mut BTreeSet::new(),
+    )
+}
+
+fn selection_set_contains_type_name_inner(
+    parent_type_id: TypeId,
+    selection_set: &[SelectionId],
+    query: &Query,
+    visited_fragments: &mut BTreeSet<ResolvedFragmentId>,
+) -> bool {
     for id in selection_set {
         let selection = query.get_selection(*id);
 
         match selection {
             Selection::Typename => return true,
             Selection::FragmentSpread(fragment_id) => {
+                // Fragments can spread each other in a cycle: visit each one only once.
+                if !visited_fragments.insert(*fragment_id) {
+                    continue;
+                }
+
                 let fragment = query.get_fragment(*fragment_id);
                 if fragment.on == parent_type_id
-                    && selection_set_contains_type_name(fragment.on, &fragment.selection_set, query)
+                    && selection_set_contains_type_name_inner(
+                        fragment.on,
+                        &fragment.selection_set,
+                        query,
+                        visited_fragments,
+                    )
                 {
                     return true;
                 }
